@@ -96,7 +96,10 @@ def check(case, ctx):
     kw = dict(p["kw"])
     S.GENERATOR = np.random.default_rng(int(p["seed"]))
     if p["Q"] is not None:
-        out = call(lambda: S.Sensors(quaternions=p["Q"].copy(), freq=p["freq"], **kw))
+        # the trajectory as the caller may hold it: row-major, column-major (a (4, N) log transposed, np.asfortranarray, pandas .to_numpy()), a strided view, a list
+        lay = int(p["seed"]) % 4
+        Qin = [lambda: p["Q"].copy(), lambda: np.asfortranarray(p["Q"].copy()), lambda: np.ascontiguousarray(p["Q"].T).T, lambda: np.pad(p["Q"], ((0, 0), (1, 1)))[:, 1:5]][lay]
+        out = call(lambda: S.Sensors(quaternions=Qin(), freq=p["freq"], **kw))
     else:
         out = call(lambda: S.Sensors(num_samples=int(p["N"]), freq=p["freq"], **kw))
     if not ctx.returned(out):
